@@ -14,7 +14,8 @@ from hypothesis import given, strategies as st
 
 from monkeytype import cli
 from monkeytype.db.sqlite import SQLiteStore
-from monkeytype.stubs import build_module_stubs_from_traces
+from monkeytype.db.base import CallTraceStoreLogger
+from monkeytype.stubs import StubIndexBuilder, build_module_stubs_from_traces
 from monkeytype.tracing import CallTrace
 from monkeytype.typing import DEFAULT_REWRITER, NoOpRewriter, get_type
 
@@ -23,7 +24,7 @@ from . import core, oracle, stubread, vals
 LEVEL = "exploration"
 RULE = ("trace sets of 4..30 traces over 8 functions of a fixture module with 2..8 distinct value shapes per position (incl. "
         "families of same-element tuples of different arity, dict records for TypedDict merging), k in {0,3}, default and no "
-        "rewriter; presentations: permuted rows, duplicated rows, splits into 1..4 batches over 1..3 connections, a row limit "
+        "rewriter (and twin traces that differ only in which parameter had which type, or only in the yield type); presentations: traces passed through the store logger with generated flush points, the incremental StubIndexBuilder queried halfway, permuted rows, duplicated rows, splits into 1..4 batches over 1..3 connections, a row limit "
         "just above the number of distinct traces, and stub generation by the CLI in fresh interpreters with different "
         "PYTHONHASHSEED; plus in-process permutations/duplications through build_module_stubs_from_traces. Oracle: the "
         "canonical stub (functions, decorators, import table, per-position annotation with unions as sets, generated TypedDict "
@@ -32,12 +33,12 @@ RULE = ("trace sets of 4..30 traces over 8 functions of a fixture module with 2.
 ASSUMPTIONS = ["hash/address dependent orders are sampled across processes, not controlled",
                "module names without textual overlap and unique parameter names (C11's findings are kept out)"]
 
-FUNCS = {"ident": 1, "second": 2, "boxed": 1, "gen": 2, "gen_ret": 1, "C.m": 1, "C.cm": 1, "C.sm": 1}
+FUNCS = {"ident": 1, "second": 2, "boxed": 1, "gen": 2, "gen_ret": 1, "C.m": 1, "C.cm": 1, "C.sm": 1, "pair": 2, "geny": 1}
 
 
 def live(fname):
     import fx_target as t
-    return {"ident": t.ident, "second": t.second, "boxed": t.boxed, "gen": t.gen, "gen_ret": t.gen_ret, "C.m": t.C.m,
+    return {"ident": t.ident, "second": t.second, "boxed": t.boxed, "gen": t.gen, "gen_ret": t.gen_ret, "C.m": t.C.m, "pair": t.pair, "geny": t.geny,
             "C.cm": t.C.cm.__func__, "C.sm": t.C.sm}[fname]
 
 
@@ -54,7 +55,13 @@ trace_spec = st.tuples(st.sampled_from(sorted(FUNCS)), st.lists(value, min_size=
 focused_set = st.tuples(st.sampled_from(sorted(FUNCS)), st.sampled_from([tuple_family, tuple_family1, tuple_family1, record, siblings, st.one_of(tuple_family, record),
                         st.sampled_from([["inst", c] for c in ["D1", "D2", "DD", "Base", "Mixed", "Other"]] + [["lit", None], ["lit", 1]])])).flatmap(
     lambda p: st.lists(st.lists(p[1], min_size=2, max_size=2), min_size=5, max_size=14).map(lambda vs: [[p[0], v] for v in vs]))
-trace_sets = st.one_of(st.lists(trace_spec, min_size=4, max_size=24), focused_set,
+# twins: traces of one function that differ ONLY in which parameter had which type (pair, gen, second) or only in what was
+# yielded (geny) - the narrowest ways in which two distinct traces can be mistaken for one
+small = st.one_of(vals.values(1), st.sampled_from([["lit", 1], ["lit", "s"], ["lit", None], ["inst", "D1"], ["inst", "D2"]]))
+twin_set = st.tuples(st.sampled_from(["pair", "geny", "gen", "second", "pair", "geny"]), st.lists(st.tuples(small, small), min_size=1, max_size=4),
+                     st.lists(trace_spec, max_size=6)).map(
+    lambda p: [[p[0], [a, b]] for a, b in p[1]] + [[p[0], [b, a] if p[0] != "geny" else [a, a]] for a, b in p[1]] + p[2])
+trace_sets = st.one_of(st.lists(trace_spec, min_size=4, max_size=24), focused_set, twin_set,
                        st.tuples(focused_set, st.lists(trace_spec, max_size=8)).map(lambda p: p[0] + p[1]))
 
 
@@ -64,6 +71,12 @@ def make_trace(ts, k):
     names = [n for n in fn.__code__.co_varnames[: fn.__code__.co_argcount] if n not in ("self", "cls")]
     vals_ = [vals.build(v) for v in vs]
     at = {n: get_type(v, k) for n, v in zip(names, vals_)}
+    if fname == "pair":
+        # the result does not depend on the arguments: two traces may differ ONLY in which parameter had which type
+        return CallTrace(fn, at, type(None), None)
+    if fname == "geny":
+        # one traced parameter; the second value is what the generator yielded: traces may differ ONLY in the yield type
+        return CallTrace(fn, {"p_geny": at["p_geny"]}, type(None), get_type(vals_[1], k))
     if fname == "gen":
         return CallTrace(fn, at, type(None), get_type(vals_[0], k))
     if fname == "gen_ret":
@@ -140,7 +153,7 @@ def in_process(ctx, tspecs, k, rw_name, rnd):
     spec = ["INPROC", tspecs, k, rw_name]
     ctx.case(spec, nontrivial(tspecs), ["in-process", "rewriter:" + rw_name, "k=%d" % k])
     base = None
-    for p in range(4):
+    for p in range(7 if rw_name == "noop" else 6):
         order = list(tspecs)
         if p:
             rnd.shuffle(order)
@@ -148,7 +161,33 @@ def in_process(ctx, tspecs, k, rw_name, rnd):
             rnd.shuffle(order)
         traces = [make_trace(t, k) for t in order]
         try:
-            text = build_module_stubs_from_traces(traces, k, rewriter=rw)["fx_target"].render()
+            if p in (4, 5):
+                # the traces reach the store through the logger, flushed at generated points (one batch per flush), and
+                # come back from it: how the set was split into flushes must not show
+                store = SQLiteStore.make_store(":memory:")
+                lg = CallTraceStoreLogger(store)
+                cuts = set(rnd.sample(range(len(traces) + 1), min(len(traces) + 1, 0 if p == 4 else rnd.randint(1, 4))))
+                for i, t in enumerate(traces):
+                    if i in cuts:
+                        lg.flush()
+                    lg.log(t)
+                lg.flush()
+                traces = [r.to_trace() for r in store.filter("fx_target", limit=10 ** 6)]
+                store.conn.close()
+                ctx.label("presentation:logger-flushes=%d" % (len(cuts) + 1))
+            if p == 6:
+                # the incremental index builder (no rewriter): stubs asked for halfway and again after the rest was logged
+                sib = StubIndexBuilder("fx_target", k)
+                cut = rnd.randint(0, len(traces))
+                for t in traces[:cut]:
+                    sib.log(t)
+                sib.get_stubs()
+                for t in traces[cut:]:
+                    sib.log(t)
+                text = sib.get_stubs()["fx_target"].render()
+                ctx.label("presentation:index-builder")
+            else:
+                text = build_module_stubs_from_traces(traces, k, rewriter=rw)["fx_target"].render()
             c = canonical(text)
         except stubread.StubError:
             ctx.label("skipped:stub-not-canonicalisable(C11/C12 findings)")
